@@ -26,6 +26,8 @@ def run(ck, an, tier):
     from rules import C14
     from sa.report import Renamed
     C14.s5(Renamed(ck, "C14:"), an)      # exchange[contract] is that contract's own book (keys by symbol / static hashing)
+    C14.s1(Renamed(ck, "C14:"), an)      # every quote update reaches the book it is for, as given (the NLV moves with every quote) ...
+    C14.s3(Renamed(ck, "C14:"), an)      # ... and nothing but a dead book stands between a quote and its book
     ledger.trade_formulas(ck, an)
     ledger.fees_formulas(ck, an)
     ledger.transact_equations(ck, an, {"order", "equations", "reference"})
